@@ -1,6 +1,7 @@
 package main
 
 import (
+	"google.golang.org/protobuf/encoding/protowire"
 	"fmt"
 	"math"
 	"sort"
@@ -21,6 +22,8 @@ type Flat struct {
 	// known extension fields per message (from the resolver), part of the schema
 	Exts  map[protoreflect.FullName][]protoreflect.ExtensionType
 	Lines []string
+
+	normUnknown bool // Snap re-encodes unknown-field tags minimally (see SnapNorm)
 }
 
 func kindName(k protoreflect.Kind) string {
@@ -239,12 +242,38 @@ func (f *Flat) snapMsg(sb *strings.Builder, m protoreflect.Message) {
 			sb.WriteString(" ")
 		}
 	}
-	sb.WriteString("u " + vh.Hex(m.GetUnknown()) + " )")
+	u := []byte(m.GetUnknown())
+	if f.normUnknown {
+		u = minimalTags(u)
+	}
+	sb.WriteString("u " + vh.Hex(u) + " )")
+}
+
+// minimalTags re-encodes the tag of every record of u (one message level) as a minimal varint; u is returned
+// unchanged when it does not parse.
+func minimalTags(u []byte) []byte {
+	var out []byte
+	for rest := u; len(rest) > 0; {
+		num, typ, tn := protowire.ConsumeTag(rest)
+		if tn < 0 {
+			return u
+		}
+		vn := protowire.ConsumeFieldValue(num, typ, rest[tn:])
+		if vn < 0 {
+			return u
+		}
+		out = protowire.AppendTag(out, num, typ)
+		out = append(out, rest[tn:tn+vn]...)
+		rest = rest[tn+vn:]
+	}
+	return out
 }
 
 // SnapNorm is Snap with unknown-field tags re-encoded minimally when norm is set (the fast path
 // normalises unknown tags; C08 allows that).
 func (f *Flat) SnapNorm(m protoreflect.Message, norm bool) string {
-	// TODO(norm): only the top-level unknown set is normalised by the callers' inputs so far
+	// the reflection decoder keeps unknown records byte for byte, the table-driven one re-encodes their tags
+	f.normUnknown = true
+	defer func() { f.normUnknown = false }()
 	return f.Snap(m)
 }
